@@ -118,7 +118,8 @@ def run_log(case):
         lc.added_cb.add_callback(lambda *a: flags.append(('added', a[-1], s.now)))
         lc.started_cb.add_callback(lambda *a: flags.append(('started', a[-1], s.now)))
         samples = []
-        lc.data_received_cb.add_callback(lambda ts, data, blk: samples.append((ts, dict(data), blk)))
+        kept = []       # the very objects handed to the callback, to see that later samples do not change earlier ones
+        lc.data_received_cb.add_callback(lambda ts, data, blk: (samples.append((ts, dict(data), blk)), kept.append((data, dict(data)))))
         n_tx = len(link.tx)
         accepted = True
         try:
@@ -261,6 +262,10 @@ def run_log(case):
             out.fail('log:data-decode', '%s: device sent %r, callbacks got %r' % (desc, delivered[:3], [(ts, v) for ts, v, b in samples][:3]))
         if any(b is not lc for ts, v, b in samples):
             out.fail('log:data-wrong-block', desc)
+        for obj, snap in kept:
+            if set(obj) != set(snap) or any(not _eq(obj[k_], snap[k_]) for k_ in snap):
+                out.fail('log:sample-changed-afterwards', '%s: a sample delivered as %r later reads %r' % (desc, snap, dict(obj)))
+                break
         # ---------------- flags vs device state
         blk = dev.blocks.get(bid)
         if not has_mem:
@@ -326,6 +331,7 @@ def run_sync(case):
                         lc.add_variable(n)
                 confs.append((lc, names))
             collected = []
+            kept_sync = []
             state = {'done': False, 'error': None}
 
             nsess = 2 if (case.get('sessions') == 2 and case['n'] >= 1 and not case['consumer_gap']) else 1
@@ -339,6 +345,7 @@ def run_sync(case):
                         with logger:
                             for entry in logger:
                                 collected.append((entry[0], dict(entry[1]), entry[2].name))
+                                kept_sync.append((entry[1], dict(entry[1])))
                                 got_here += 1
                                 if case['consumer_gap']:
                                     s.sleep(case['consumer_gap'])
@@ -414,6 +421,10 @@ def run_sync(case):
             delivered_cmp = delivered
         ok = len(collected) == len(delivered_cmp) and all(a[0] == b[0] and a[2] == b[2] and set(a[1]) == set(b[1]) and all(_eq(a[1][k], b[1][k]) for k in a[1])
                                                        for a, b in zip(collected, delivered_cmp))
+        for obj, snap in kept_sync:
+            if set(obj) != set(snap) or any(not _eq(obj[k_], snap[k_]) for k_ in snap):
+                out.fail('sync:sample-changed-afterwards', 'a sample yielded as %r later reads %r' % (snap, dict(obj)))
+                break
         if not ok:
             out.fail('sync:samples', 'device sent %d samples %r, iterator yielded %d %r' % (len(delivered), [(d[0], d[2]) for d in delivered], len(collected), [(c[0], c[2]) for c in collected]))
         if s.deaths:
